@@ -316,7 +316,9 @@ Example ex_native :
   = Ok (Some (mkFound (lit "s2") (lit "foo") (lit "1.1") (lit "Linux64"), Some (EVersion, Some (lit "1.1")))).
 Proof. vm_compute. reflexivity. Qed.
 
-(* an earlier choice through current stands against a later hit through the lower-ranked tag t *)
+(* an earlier choice through commandLine gives way to a hit through t, which ranks higher in this VRO;
+   an earlier choice through beta stands against a hit through current (flavor generic has no beta), which
+   ranks lower *)
 Example ex_rank :
   find_from_vro vcmp_simple vmatch_simple ex_cfg ex_db
     (Some (mkFound (lit "s1") (lit "foo") (lit "2.0") (lit "Linux64"), Some (ECommandLine, Some (lit "2.0"))))
@@ -324,7 +326,7 @@ Example ex_rank :
   = Some (mkFound (lit "s2") (lit "foo") (lit "1.0") (lit "Linux64"), (ETag (lit "t"), None)) /\
   find_from_vro vcmp_simple vmatch_simple ex_cfg ex_db
     (Some (mkFound (lit "s1") (lit "foo") (lit "2.0") (lit "Linux64"), Some (ETag (lit "beta"), None)))
-    (lit "Linux64") 1 (ex_vro [lit "beta"] []) (ex_rq None None)
+    (lit "generic") 1 (ex_vro [lit "beta"] []) (ex_rq None None)
   = Some (mkFound (lit "s1") (lit "foo") (lit "2.0") (lit "Linux64"), (ETag (lit "beta"), None)).
 Proof. split; vm_compute; reflexivity. Qed.
 
